@@ -6,6 +6,72 @@ NOTES = ('Contract-based deductive verification only (CBMC code contracts on fun
          'extraction break, vacuity guard) and is never reported as a violation. See DESIGN.md.')
 _PENDING = 'units for this property are not built yet (see DESIGN.md section 7); not claimed until they exist and pass'
 CLAIMED = {
+ 'C01': ('proof',
+         'Component-level proof of memory safety / no UB / termination for the functions every parse goes through: the XMLReader '
+         'buffer machinery and scanning functions, XMLBuffer, the element stack, the intrinsic transcoders, XMLString utilities, '
+         'memory streams, ValueVectorOf, CMStateSet, message formatting, reader-stack ownership, the serialisation engine '
+         'primitives and the scanner leaves listed in the evidence; every obligation of every listed function is discharged '
+         'for all inputs within the stated buffer bounds. Not a whole-parser claim.',
+         'DESIGN.md 3-C01',
+         'Buffer constants rebound / lengths bounded per unit; callees replaced by contracts are proved in their own units or '
+         'listed as assumed; scanner bodies, DTDScanner, TraverseSchema, buildDFA, RegxParser and everything reached only through '
+         'them are not covered.',
+         'CBMC function and loop contracts + bounds/pointer/overflow checks on extracted real bodies'),
+ 'C02': ('proof',
+         'Component-level proof that the predicates and leaf scanners the well-formedness verdict rests on implement the '
+         'productions: both 64K character tables against XML 1.0 (5th ed.) / 1.1 productions for all 2^16 characters, the name '
+         'validators, the error-severity partition, and - over a reader abstraction, complete up to a stated input length - '
+         'character references, comments, PIs, CDATA sections, character data (all four scanners), attribute values, the '
+         'attribute-list state machine, end tags, the XML declaration, namespace-declaration constraints, duplicate-attribute '
+         'detection and entity recursion detection.',
+         'DESIGN.md 3-C02',
+         'Reader abstraction / emitError / handler sinks are trusted stubs; scanner-level units are complete only up to the '
+         'stated input length; DTD internal-subset scanning, entity expansion and the dispatch in scanContent/scanStartTag are '
+         'not covered.',
+         'CBMC complete unwinding over bounded symbolic inputs + full-domain table proofs on extracted real bodies'),
+ 'C06': ('proof',
+         'Component-level proof for the namespace mechanisms: ElemStack prefix maps (innermost binding wins, growth preserves '
+         'entries), updateNSMap reserved-prefix constraints (DG/IG/SG), duplicate expanded attribute names, the SAX2 '
+         'prefix-mapping pass, DOM Level 3 lookupNamespaceURI / lookupPrefix / isDefaultNamespace over a harness tree, the DOM '
+         'serializer scope search, QName splitting.',
+         'DESIGN.md 3-C06',
+         'XMLStringPool ids assumed injective; the multi-row look-up and DOM tree units are bounded (depth <= 3); '
+         'scanStartTagNS/buildAttList as wholes and the SAX2/DOM adapters outside the extracted fragments are not covered.',
+         'CBMC code contracts + bounded complete unwinding on extracted real bodies and fragments'),
+ 'C07': ('proof',
+         'Component-level proof for the validity kernels only: SimpleContentModel, MixedContentModel and the DFA table walk '
+         'accept exactly the language of the model (all child sequences up to a stated length), CMStateSet set operations, and the '
+         'attribute-value checks of DTDValidator::validateAttrValue (fragment). buildDFA, DTDScanner and the validation '
+         'driver are not covered.',
+         'DESIGN.md 3-C07',
+         'Names are ids (equal iff same id); DFA transition tables are arbitrary tables satisfying the stated invariant, not '
+         'the output of buildDFA; known findings listed in known_findings.txt.',
+         'CBMC complete unwinding over bounded symbolic inputs on extracted real bodies'),
+ 'C08': ('proof',
+         'Component-level proof for the particle-matching kernels shared with C07 plus AllContentModel and the counting-state '
+         '(minOccurs/maxOccurs) DFA walk against a counting-automaton reference; TraverseSchema, SchemaValidator, '
+         'ComplexTypeInfo and buildDFA are not covered.',
+         'DESIGN.md 3-C08',
+         'Same modelling as C07; one known finding (counting state + wildcard) listed in known_findings.txt.',
+         'CBMC complete unwinding over bounded symbolic inputs on extracted real bodies'),
+ 'C09': ('proof',
+         'Component-level proof for the value-level kernels: Gregorian helpers, parseInt (no wrap-around), normalize, '
+         'compareOrder/compareResult and the duration reference table of XMLDateTime; XMLBigInteger / XMLBigDecimal parsing '
+         'and comparison (value-space equality of all lexical zeros, antisymmetry, transitivity); Base64 / HexBin lexical spaces '
+         'incl. padding bits; textToBin/parseInt range; schema whitespace facets. Datatype validator classes, facets, '
+         'lists/unions, float/double and XSValue are not covered.',
+         'DESIGN.md 3-C09',
+         'String lengths bounded per unit; year range bounded in quick tier; allocation modelled as fresh exact-size objects; '
+         'one known finding (negative durations) in known_findings.txt.',
+         'CBMC code contracts + complete unwinding over bounded symbolic inputs on extracted real bodies'),
+ 'C11': ('other',
+         'BOUNDED stand-ins only, never counted as proved: RangeToken range algebra (addRange, sort/compact, merge, subtract, '
+         'intersect, complement, match/doCreateMap) against set semantics over a ghost code point with <= 2-3 ranges per operand '
+         'over a small code-point universe, and BMPattern::matches for short patterns. The parser, Op compilation and the '
+         'backtracking matcher are not covered; the property as a whole is not decided.',
+         'DESIGN.md 3-C11',
+         'Bounds stated per unit in the evidence (bounded_units); arena allocation model.',
+         'CBMC bounded unwinding with unwinding assertions on extracted real bodies (bounded stand-in)'),
  'C03': ('proof',
          'Component-level proof: the normalisation mechanisms (end-of-line handling and line/column tracking of XMLReader, '
          'attribute-value normalisation of the IG/SG scanners, character references, comments, PIs, CDATA sections and character '
@@ -48,10 +114,6 @@ CLAIMED = {
          'CBMC code contracts + complete unwinding over the full byte-sequence domain on extracted real bodies'),
 }
 NOT_APPLICABLE = {
- 'C01': _PENDING, 'C02': _PENDING, 'C06': _PENDING, 'C09': _PENDING,
- 'C11': _PENDING, 
- 'C07': 'DTD validity is decided by buildDFA/DTDValidator/DTDScanner: recursive C++ object graphs with virtual dispatch and templates; no contract within reach of the C extraction states "the DFA accepts the content model language".',
- 'C08': 'Schema structure validation (TraverseSchema/SchemaValidator/ComplexTypeInfo): same reason as C07, larger.',
  'C10': 'Identity constraints: ValueStore/XPathMatcher object graphs driven by the scanner event stream; value equality through virtual DatatypeValidator::compare.',
  'C13': 'DOM mutation: quantifier is operation histories over an unbounded heap shape across ~20 classes linked by dynamic_cast cross-casts; CBMC C++ front end rejects the sources and the textual extractor cannot flatten the hierarchy without hand-modelling it (a model, not the code).',
  'C14': 'Live lists/iterators/ranges under mutation: whole-history property over DOM object graphs (see C13).',
